@@ -316,15 +316,17 @@ class BasicContiguousElement
                           (!AllocatorTraits::propagate_on_container_copy_assignment::value ||
                            AllocatorTraits::is_always_equal::value))
             {
-                reference_ = other.reference_;
-                memory_.propagate_on_container_copy_assignment(other.memory_);
+                // a moved-from element owns no storage that could be assigned into
+                if (memory_)
+                {
+                    reference_ = other.reference_;
+                    memory_.propagate_on_container_copy_assignment(other.memory_);
+                    return;
+                }
             }
-            else
-            {
-                destruct();
-                memory_ = other.memory_;
-                store_and_construct_reference_inplace(other.reference_, other.reference_.size_in_bytes());
-            }
+            destruct();
+            memory_ = other.memory_;
+            store_and_construct_reference_inplace(other.reference_, other.reference_.size_in_bytes());
         }
     }
 
@@ -354,27 +356,29 @@ class BasicContiguousElement
             {
                 if constexpr (ListTraits::IS_FIXED_SIZE_OR_PLAIN)
                 {
-                    reference_ = std::move(other.reference_);
-                    memory_.propagate_on_container_move_assignment(other.memory_);
+                    // a moved-from element owns no storage that could be assigned into
+                    if (memory_)
+                    {
+                        reference_ = std::move(other.reference_);
+                        memory_.propagate_on_container_move_assignment(other.memory_);
+                        return;
+                    }
+                }
+                const auto other_size_in_bytes = other.reference_.size_in_bytes();
+                if (other_size_in_bytes > memory_.size() * sizeof(StorageElementType))
+                {
+                    // allocate memory first because it might throw
+                    StorageType new_memory{other.memory_.size(), get_allocator()};
+                    destruct();
+                    reference_.tuple_ = store_and_load(other.reference_, other_size_in_bytes,
+                                                       BasicContiguousElement::memory_begin(new_memory))
+                                            .tuple_;
+                    memory_ = std::move(new_memory);
                 }
                 else
                 {
-                    const auto other_size_in_bytes = other.reference_.size_in_bytes();
-                    if (other_size_in_bytes > memory_.size() * sizeof(StorageElementType))
-                    {
-                        // allocate memory first because it might throw
-                        StorageType new_memory{other.memory_.size(), get_allocator()};
-                        destruct();
-                        reference_.tuple_ = store_and_load(other.reference_, other_size_in_bytes,
-                                                           BasicContiguousElement::memory_begin(new_memory))
-                                                .tuple_;
-                        memory_ = std::move(new_memory);
-                    }
-                    else
-                    {
-                        destruct();
-                        store_and_construct_reference_inplace(other.reference_, other_size_in_bytes);
-                    }
+                    destruct();
+                    store_and_construct_reference_inplace(other.reference_, other_size_in_bytes);
                 }
             }
         }
